@@ -232,7 +232,24 @@ pub fn install_panic_hook()
 		};
 		let msg: String = msg.chars().take(300).collect();
 		let msg = msg.replace('\n', " ");
-		eprintln!("PANIC {} {}", loc, msg);
+		// the innermost penne function on the stack: stable under edits that
+		// merely shift line numbers, and specific where messages are not
+		let bt = format!("{}", std::backtrace::Backtrace::force_capture());
+		let func = bt
+			.lines()
+			.filter_map(|l| l.trim().split_once(": ").map(|(_, f)| f))
+			.find(|f| {
+				(f.starts_with("penne::") || f.starts_with("<penne::"))
+					&& !f.contains("panic") && !f.contains("{{closure}}")
+			})
+			.unwrap_or("?")
+			.to_string();
+		let func = match func.rfind("::h")
+		{
+			Some(i) if func.len() - i == 19 => func[..i].to_string(),
+			_ => func,
+		};
+		eprintln!("PANIC {} [{}] {}", loc, func, msg);
 	}));
 }
 
@@ -551,6 +568,12 @@ pub fn normalize_panic(loc: &str, msg: &str) -> String
 		.rsplit_once("/repo/")
 		.map(|(_, f)| f)
 		.unwrap_or(file);
+	// a message that is the Debug dump of a value: keep only its head
+	let msg = match msg.find(" {")
+	{
+		Some(i) if i < 40 => &msg[..i],
+		_ => msg,
+	};
 	let mut head = String::new();
 	for ch in msg.chars()
 	{
@@ -581,7 +604,14 @@ fn classify_death(status: Option<std::process::ExitStatus>, tail: &str) -> Strin
 	{
 		let rest = &line[6..];
 		let (loc, msg) = rest.split_once(' ').unwrap_or((rest, ""));
-		return normalize_panic(loc, msg);
+		// "[function] message"
+		let (func, msg) = match msg.strip_prefix('[').and_then(|m| m.split_once("] "))
+		{
+			Some((f, m)) => (f.to_string(), m),
+			None => (String::new(), msg),
+		};
+		let base = normalize_panic(loc, msg);
+		return if func.is_empty() || func == "?" { base } else { format!("{} in {}", base, func) };
 	}
 	if let Some(line) = tail.lines().rev().find(|l| l.starts_with("SEGV in "))
 	{
